@@ -5,6 +5,11 @@ NOT_APPLICABLE = {}
 _PBT = "property-based testing with pgregory.net/rapid (sharded, shrunk replay files)"
 
 TEXT = {
+    "C01": dict(
+        technique=_PBT + " + complete torsion/encoding grid + native fuzzing; oracle = literal ZIP-215 predicate on an independent big-integer Edwards25519 model (two-sided iff) + crypto/ed25519 (one-sided)",
+        level="Triples are constructed from known scalars so that the accept set is reached on purpose (torsion-mixed keys and R in every canonical / non-canonical encoding, small-order points, S+jL) and then mutated; Verify must return exactly the boolean the model computes from the statement. The 8x8 torsion x encoding grid and S+jL for j=1..15 are enumerated completely. Sampling over keys/messages: no absence claim beyond the grids.",
+        note="Trusted: harness/ref/ed (math/big, self-checked against RFC 8032 / published small-order points), crypto/sha512.",
+    ),
     "C02": dict(
         technique=_PBT + " with pluggable toy curves and injected curve faults; oracle = own SLIP-0010 model (validated on all official vectors) with the same validity predicate; call-budget instead of timeouts",
         level="Generated (seed, curve, path) triples on the three real curves and on harness toy curves that reject 50% / 87.5% of candidates (so the master and child retry loops iterate in most cases) are compared at every path prefix with an independent SLIP-0010 model: private key, chain code, serialized public key, fingerprint, path API = step-wise, public-side derivation from a drawn step on. Undefined derivations must fail; injected permanent curve errors must be returned after exactly the expected number of curve calls. Exploration.",
@@ -64,6 +69,11 @@ TEXT = {
         technique=_PBT + " + complete corner grid; oracle = affine reference curve with explicit case analysis + algebraic group laws (commutativity, associativity, distributivity, k = k mod n)",
         level="Points are generated by their discrete log so that equal / opposite / identity pairs and corner scalars (0, n, n+1, 2n, 2^256-1, leading zeros, over-long) are reached on purpose; every operation of both copies of the curve is compared with an independent affine implementation, identity as (0,0), panics are failures; all 144 corner pairs and all corner scalars enumerated completely. IsOnCurve on roots, negated roots, neighbours, (0,0).",
         note="Trusted: harness/ref/secp (math/big affine arithmetic, self-checked). Coordinates outside [0,p) are outside the statement and not generated.",
+    ),
+    "C18": dict(
+        technique=_PBT + " + complete enumeration of small-order / non-canonical key encodings + native fuzzing; oracle = own RFC 9381 prover and verifier on the big-integer curve model (byte-for-byte proofs, two-sided Verify, uniqueness of the hash)",
+        level="Prove is compared byte for byte with an independent RFC 9381 implementation on generated (seed, alpha), incl. alphas needing several try-and-increment rounds; Verify's verdict and hash are compared on honest and structurally mutated (key, alpha, proof) triples; decoding succeeds iff the reference decoder does and only on self-re-encoding inputs; accepted proofs must give the honest hash.",
+        note="Trusted: harness/ref/vrf + ref/ed (validated on the RFC 9381 examples), crypto/sha512.",
     ),
     "C19": dict(
         technique=_PBT + " + complete single-tryte substitution sweep per sampled address + native fuzzing; oracle = BIP-173 reference + (prefix, version, length) table + own migration codec (two-sided)",
